@@ -18,12 +18,15 @@ theorem as_Same.refl (s : St) : as_Same s s := ⟨⟨rfl, rfl, rfl, rfl, rfl, rf
 theorem as_sinv_same {s s' : St} (hi : SInv s) (h : as_Same s' s) : SInv s' := by
   obtain ⟨hh, hsegs, hfp, hla⟩ := h
   have hents : s'.h.ents = s.h.ents := hh.1
-  refine ⟨hi.wfs.of_same hh hsegs hfp hla, ?_, ?_, ?_, ?_⟩
+  refine ⟨hi.wfs.of_same hh hsegs hfp hla, ?_, ?_, ?_, ?_, ?_⟩
   rotate_left 3
   · intro g hg e he hb
     rw [hsegs] at hg
     rw [hents] at he
     exact hi.head g hg e he hb
+  · intro g hg hne
+    rw [hsegs] at hg
+    exact hi.recin g hg hne
   · intro g hg hne
     rw [hsegs] at hg
     rw [hents]
@@ -837,11 +840,12 @@ theorem inv_step_of_specs (hm : malloc_Spec') (hf : free_Spec) (hr : realloc_Spe
 /-! ## 5. whole histories -/
 
 theorem as_sinv_init : SInv Dl.init := by
-  refine ⟨((wf_iff_wfs Hist.init).1 wf_init).1, ?_, ?_, ?_, ?_⟩
+  refine ⟨((wf_iff_wfs Hist.init).1 wf_init).1, ?_, ?_, ?_, ?_, ?_⟩
   · intro g hg; cases hg
   · intro pre x y post hes
     have : (pre ++ x :: y :: post).length = 0 := by rw [← hes]; rfl
     simp at this
+  · intro g hg; cases hg
   · intro g hg; cases hg
   · intro g hg; cases hg
 
@@ -1026,16 +1030,28 @@ theorem as_headB_ok {s : St} (h : as_headB s = true) : HeadOk s := by
   · exact h hb
   · exact h h8
 
+def as_recInB (s : St) : Bool :=
+  s.segs.all fun g => decide (g.recAt = 0) || (decide (g.base + 16 ≤ g.recAt) && decide (g.recAt < g.base + g.size))
+
+theorem as_recInB_ok {s : St} (h : as_recInB s = true) : RecIn s := by
+  intro g hg hne
+  unfold as_recInB at h
+  simp only [List.all_eq_true, Bool.or_eq_true, Bool.and_eq_true, decide_eq_true_eq] at h
+  rcases h g hg with h | h
+  · exact absurd h hne
+  · exact h
+
 def as_inv2B (hs : Hist) : Bool :=
-  wfb hs && as_recsB hs.st && as_fenceB hs.st.segs hs.st.h.ents && as_tailB hs.st && as_headB hs.st &&
+  wfb hs && as_recsB hs.st && as_fenceB hs.st.segs hs.st.h.ents && as_tailB hs.st && as_headB hs.st && as_recInB hs.st &&
     nodupB (hs.live.map (·.id)) && as_alignB hs.live
 
 theorem as_inv2B_ok {hs : Hist} (h : as_inv2B hs = true) : Inv2 hs := by
   unfold as_inv2B at h
   simp only [Bool.and_eq_true] at h
-  obtain ⟨⟨⟨⟨⟨⟨h1, h2⟩, h3⟩, h4⟩, h4'⟩, h5⟩, h6⟩ := h
+  obtain ⟨⟨⟨⟨⟨⟨⟨h1, h2⟩, h3⟩, h4⟩, h4'⟩, h4''⟩, h5⟩, h6⟩ := h
   obtain ⟨w, hl⟩ := (wf_iff_wfs hs).1 h1
-  exact ⟨⟨⟨w, as_recsB_ok h2, fun pre x y post => as_fenceB_ok pre h3 x y post, as_tailB_ok h4, as_headB_ok h4'⟩, hl⟩,
+  exact ⟨⟨⟨w, as_recsB_ok h2, fun pre x y post => as_fenceB_ok pre h3 x y post, as_tailB_ok h4, as_headB_ok h4',
+    as_recInB_ok h4''⟩, hl⟩,
     (nodupB_iff_nodup _).1 h5, as_alignB_ok h6⟩
 
 theorem as_ok_of_matchB {α : Type} {x : M α} {p : α → Bool}
